@@ -198,6 +198,8 @@ fn base_plan(prop: &str, tier: &str, run_seed: u64) -> Plan {
     } else {
         (program, None)
     };
+    let helper_crowd = prop == "C10" && !scripted && (crng.chance(1, 40) || std::env::var("VERIF_CROWD").is_ok());
+    let program = if helper_crowd { gen::gen_helper_crowd(&mut prng) } else { program };
     let mut srng = rng.fork(2);
     let (stall_pct, spurious) = match prop {
         "C01" => (15, false),
@@ -206,6 +208,10 @@ fn base_plan(prop: &str, tier: &str, run_seed: u64) -> Plan {
         _ => (10, false),
     };
     let mut setup = gen::gen_setup(&mut srng, run_seed, &program, stall_pct, spurious);
+    if helper_crowd {
+        setup.strat = Strategy::Random { p: *srng.pick(&[50u64, 200, 350, 512]) };
+        setup.budget = setup.budget.max(60_000);
+    }
     if let Some(cs) = crowd_script {
         setup.strat = cs;
         setup.faults.stall_at.clear();
@@ -468,7 +474,9 @@ pub fn judge(prop: &str, p: &Program, r: &RunResult, opts: &ExecOpts, js: &mut J
         return out;
     }
     out.extend(oracle::basic(r, opts.panic_at.is_some()));
-    if p.threads.len() > crate::sched::MAXT_CLASSIC {
+    if p.threads.len() > crate::sched::MAXT_CLASSIC && prop == "C10" {
+        js.bump("helper_crowd_runs", 1);
+    } else if p.threads.len() > crate::sched::MAXT_CLASSIC {
         // crowd scenario: how many readers were inside the tree bin's read section when the first
         // writer announced itself
         use flurry::verif::Ev;
@@ -740,6 +748,7 @@ pub fn reach_goals(prop: &str, agg: &Agg) -> serde_json::Value {
             goals.push(("resize started by reserve/presize", ev(Ev::PresizeResize)));
             goals.push(("tree bin split by a resize", ev(Ev::TreeSplit)));
             goals.push(("post-run growth probes", ex("post_run_growth_probes")));
+            goals.push(("helper crowd runs (9-38 threads meeting one resize)", ex("helper_crowd_runs")));
         }
         "C12" => {
             goals.push(("stall faults fired", agg.faults[2]));
